@@ -34,7 +34,7 @@ from __future__ import annotations
 
 import ast
 
-from ..astutil import attr_chain, callee_name, calls, is_name, is_self_attr, text, unwrap_await
+from ..astutil import call_recv, attr_chain, callee_name, calls, is_name, is_self_attr, text, unwrap_await
 from ..core import Result
 from ..flow import MustFlow
 from ..model import AnchorMissing, Repo, walk_no_nested
@@ -97,13 +97,23 @@ def run(repo: Repo) -> Result:
     res.assumptions = ["markupsafe: Markup.join/format/%/+ escape non-Markup operands; escape() returns Markup", "safe, script_tag and stylesheet_tag are excluded by the property"]
 
     # ---- C05-SINK --------------------------------------------------------------
+    import copy as _copy
+
+    from ..normalize import NFunc as _NF
+    from ..normalize import propagate_aliases as _propagate
+
     n_w = 0
     for c in repo.subclasses("liquid.ast.Node"):
-        for f in c.methods.values():
-            if not (f.name.startswith("render") or f.name.startswith("_format") or f.name.startswith("_assign")):
+        for f0 in c.methods.values():
+            # every method of a node class (helpers extracted from the render methods included),
+            # with bound-method aliases such as `write = buffer.write` propagated to their uses
+            if f0.name.startswith("__") and f0.name != "__call__":
                 continue
+            if not any(isinstance(n, ast.Attribute) and n.attr == "write" for n in ast.walk(f0.node)):
+                continue
+            f = _NF(f0, _propagate(_copy.deepcopy(f0.node)))
             bufs_from_get_buffer = {t.id for st in ast.walk(f.node) if isinstance(st, ast.Assign) and isinstance(unwrap_await(st.value), ast.Call) and callee_name(unwrap_await(st.value)) == "get_buffer" for t in st.targets if isinstance(t, ast.Name)}
-            getvalue_vars = {t.id for st in ast.walk(f.node) if isinstance(st, ast.Assign) and isinstance(st.value, ast.Call) and callee_name(st.value) == "getvalue" and isinstance(st.value.func.value, ast.Name) and st.value.func.value.id in bufs_from_get_buffer for t in st.targets if isinstance(t, ast.Name)}
+            getvalue_vars = {t.id for st in ast.walk(f.node) if isinstance(st, ast.Assign) and isinstance(st.value, ast.Call) and callee_name(st.value) == "getvalue" and isinstance(call_recv(st.value), ast.Name) and call_recv(st.value).id in bufs_from_get_buffer for t in st.targets if isinstance(t, ast.Name)}
             for w in ast.walk(f.node):
                 if not (isinstance(w, ast.Call) and callee_name(w) == "write" and isinstance(w.func, ast.Attribute)):
                     continue
@@ -185,8 +195,53 @@ def run(repo: Repo) -> Result:
         if len(rr) != 1 or not is_name(rr[0].value, "val"):
             res.add("C05-ESCAPE", tls.qual, "returns", "to_liquid_string must return the (escaped) val", tls.file, tls.line)
     # list branch
+    # Under autoescape the items of a list are joined by a *Markup* joiner (Markup.join escapes
+    # every item that is not itself Markup).  The joiner may be written in place, chosen by a
+    # conditional expression on `autoescape`, or be a local / module constant bound to Markup(<literal>).
+    from ..astutil import single_assignments
+    from ..guards import canon as _canon
+    from ..guards import conditions as _conditions
+
     lst = [n for n in ast.walk(tls.node) if isinstance(n, ast.If) and text(n.test) == "isinstance(val, list)"]
-    if not lst or "Markup('').join((soft_str(itm) for itm in val))" not in text(lst[0]):
+    local1 = single_assignments(tls.node)
+
+    def markup_when_autoescape(e, depth=0) -> bool:
+        if depth > 4:
+            return False
+        if isinstance(e, ast.Call) and callee_name(e) in ("Markup", "Markupsafe") and len(e.args) == 1 and isinstance(e.args[0], ast.Constant) and isinstance(e.args[0].value, str):
+            return True
+        if isinstance(e, ast.IfExp) and is_name(e.test, "autoescape"):
+            return markup_when_autoescape(e.body, depth + 1)
+        if isinstance(e, ast.Name):
+            if e.id in local1:
+                return markup_when_autoescape(local1[e.id], depth + 1)
+            v = tls.module.assigns.get(e.id)
+            if v is not None:
+                return markup_when_autoescape(v, depth + 1)
+        return False
+
+    ok_join = False
+    if lst:
+        conds = {id(st): [_canon(c) for c in cs] for st, cs in _conditions(tls.node)}
+        joins = []
+        for st, _cs in _conditions(ast.Module(body=lst[0].body, type_ignores=[])):
+            if hasattr(st, "body"):
+                continue  # compound statement: its simple statements are visited on their own
+            for c in calls(st):
+                if callee_name(c) == "join" and isinstance(c.func, ast.Attribute):
+                    joins.append((st, c))
+        cond_in_branch = {id(st): [_canon(c) for c in cs] for st, cs in _conditions(ast.Module(body=lst[0].body, type_ignores=[]))}
+        relevant = [(st, c) for st, c in joins if "not autoescape" not in cond_in_branch.get(id(st), [])]
+        ok_join = bool(relevant) and all(
+            markup_when_autoescape(c.func.value)
+            and c.args
+            and isinstance(c.args[0], (ast.GeneratorExp, ast.ListComp))
+            and isinstance(c.args[0].elt, ast.Call)
+            and callee_name(c.args[0].elt) == "soft_str"
+            and text(c.args[0].generators[0].iter) == "val"
+            for st, c in relevant
+        )
+    if not ok_join:
         res.add("C05-ESCAPE", tls.qual, "list-join", "lists must be joined with Markup('').join(soft_str(itm) ...) under autoescape (escapes every non-Markup item)", tls.file, tls.line)
     first = body[0] if body else None
     if not (isinstance(first, ast.If) and "hasattr(val, '__html__')" in text(first.test) and "isinstance(val, str)" in text(first.test)):
@@ -334,7 +389,7 @@ def run(repo: Repo) -> Result:
             from ..flow import node_calls
 
             for call in node_calls(node):
-                if callee_name(call) in ("gettext", "ngettext", "pgettext", "npgettext") and isinstance(call.func, ast.Attribute) and is_name(call.func.value, "translations"):
+                if callee_name(call) in ("gettext", "ngettext", "pgettext", "npgettext") and isinstance(call.func, ast.Attribute) and is_name(call_recv(call), "translations"):
                     for a in call.args:
                         if isinstance(a, ast.Name) and a.id not in ("n", "__count"):
                             res.ob(f"reg-arg:{f.qual}:{a.id}")
